@@ -36,6 +36,18 @@ type recorder struct {
 
 var curRec atomic.Pointer[recorder]
 
+// hungCases counts cancellations that were not honoured within 10 s. After three of them the
+// cancelling wait is no longer stretched to 30 s (the defect is established; attempts are still judged),
+// so that a broken tree does not stall the check for hours.
+var hungCases atomic.Int32
+
+func cancelWait() time.Duration {
+	if hungCases.Load() >= 3 {
+		return 0
+	}
+	return 30 * time.Second
+}
+
 var sampledKeys sync.Map
 
 // sampleOnce keeps one evidence sample per key (the evidence file holds six).
@@ -86,7 +98,7 @@ type directResult struct {
 func execDirect(c *cfg, script []outcome, o directOpts) directResult {
 	ctx, cancel := context.WithCancel(context.Background())
 	defer cancel()
-	rec := &recorder{cancelAtWait: o.cancelAtWait, cancel: cancel, cancelReturn: 30 * time.Second}
+	rec := &recorder{cancelAtWait: o.cancelAtWait, cancel: cancel, cancelReturn: cancelWait()}
 	curRec.Store(rec)
 	defer curRec.Store(nil)
 	var calls, beyond atomic.Int32
@@ -115,6 +127,7 @@ func execDirect(c *cfg, script []outcome, o directOpts) directResult {
 		case err = <-done:
 		case <-time.After(10 * time.Second): // the cancelling wait is 30 s: still parked => the wait ignores the context
 			hung = true
+			hungCases.Add(1)
 		}
 	}
 	return directResult{Attempts: int(calls.Load()), Beyond: int(beyond.Load()), Waits: rec.snapshot(), Err: err, Hung: hung}
